@@ -27,6 +27,9 @@ def alphabet():
             ops.append(guard([S("probe"), Q(S("ref")), S("%s:%s" % (p, n))]))
             ops.append(guard([S("set"), Q(S("%s:%s" % (p, n))), 30]))
         ops.append(guard([S("probe"), Q(S("call")), [S("%s:f" % p)]]))
+        # a lexical variable of the same bare name does not capture a qualified reference (also when p is current)
+        ops.append(guard([S("let"), [[S("x"), 77]], [S("probe"), Q(S("shadowed")), S("x"), S("%s:x" % p)]]))
+        ops.append(guard([[S("lambda"), [S("x")], [S("probe"), Q(S("param-shadowed")), S("x"), S("%s:x" % p)]], 78]))
     for n in ("x", "y"):
         ops.append([S("export"), Q(S(n))])
         for v in (1, 2):
